@@ -266,6 +266,8 @@ class Bounds:
                     and len(src[2]) >= 2 and depth < 3:
                 bl2, bh2 = self.itv(("len", src[2][1]), depth + 1)
                 lo, hi = max(lo, 0), min(hi, bh2)
+                if "Udp" in src[1] and values.strip_generics(src[1]).split("::")[-1] in ("send_to", "send", "recv"):
+                    hi = min(hi, 65535)      # one UDP datagram: the length field of the UDP header has 16 bits (a longer buffer is refused with EMSGSIZE)
         elif k == "call":
             nm = values.strip_generics(a[1]).split("::")[-1]
             if nm in ("trailing_zeros", "leading_zeros", "count_ones", "count_zeros", "ilog2"):
